@@ -400,6 +400,13 @@ func (f *Frame) assumeWellFormed(st *State, v *Term, t types.Type) {
 			f.c.assume(st, Ge(v, IntLit(0)))
 		}
 	case *types.Interface:
+		// the dynamic value of an interface is an identity that is already in use (an allocated object, nil, or a
+		// boxed value): it is never an object that will only be allocated later
+		if v.Sort == SIfc {
+			al := f.c.heapGet(st, "ALLOC", ArrSort(SInt, SBool))
+			r := ifaceRef(v)
+			f.c.assume(st, Or(Eq(r, IntLit(0)), Select(al, r)))
+		}
 		// a value of an interface type with methods never has a predeclared basic type as its dynamic type
 		if u.NumMethods() > 0 && v.Sort == SIfc {
 			for _, bt := range []types.Type{types.Typ[types.Bool], types.Typ[types.String], types.Typ[types.Int], types.Typ[types.Int64], types.Typ[types.Uint64], types.Typ[types.Float64]} {
